@@ -117,8 +117,16 @@ def chainCands (B : Nat) : Nat → List Map.EStep → List (Nat × Nat)
     let hs := if stepInserts s then List.range B else [0]
     hs.flatMap fun hd => es.flatMap fun ed => tails.map fun (e, h) => (e + ed * 2 ^ i, h + hd * B ^ i)
 
-def resolveBoth (run : Nat → Nat → Except Fault (Map × Out)) (glObs mbObs : Option Nat) (cands : List (Nat × Nat)) :
-    Except Fault (Map × Out) :=
+/-- what a resolved candidate must reproduce besides `growth_left`: every structural counter and the number of
+    allocations (a growth into a table of the same size can otherwise pass for a landing on tombstones) -/
+def structOk (obs : List (String × String)) (m : Map) (out : Out) : Bool :=
+  (obsFields m out).all (fun (k, v) =>
+    if k == "mi" || k == "old" || k == "da" || k == "len" || k == "mb" || k == "mgl" then
+      (match field? obs k with | some iv => iv == v | none => true)
+    else true)
+
+def resolveBoth (run : Nat → Nat → Except Fault (Map × Out)) (glObs mbObs : Option Nat) (cands : List (Nat × Nat))
+    (obs : List (String × String) := []) : Except Fault (Map × Out) :=
   match glObs with
   | none => run 0 0
   | some g =>
@@ -128,7 +136,8 @@ def resolveBoth (run : Nat → Nat → Except Fault (Map × Out)) (glObs mbObs :
       | (e, h) :: rest =>
         match run e h with
         | .ok (m, out) =>
-          if m.main.gl == g && (match mbObs with | some b => m.main.buckets == b | none => true) then .ok (m, out) else go rest
+          if m.main.gl == g && (match mbObs with | some b => m.main.buckets == b | none => true) && structOk obs m out
+          then .ok (m, out) else go rest
         | .error _ => go rest
     go cands
 
@@ -198,17 +207,24 @@ def extendOrcs (c : Cfg) (m : Map) (items : List Entry) (hint0 : Nat) (finalOld 
           else go m' rest 0 (o :: acc)
     go m1 items (T - used0) [o0]
 
-def resolveExtend (c : Cfg) (m : Map) (items : List Entry) (hint : Nat) (finalOld : List Nat) (glObs mbObs : Option Nat) :
-    Except Fault (Map × Out) :=
+def resolveExtend (c : Cfg) (m : Map) (items : List Entry) (hint : Nat) (finalOld : List Nat) (glObs mbObs : Option Nat)
+    (obs : List (String × String)) : Except Fault (Map × Out) :=
   let run (T : Nat) : Option (Except Fault (Map × Out)) :=
     match extendOrcs c m items hint finalOld T with
     | none => none
     | some (orcs, _) =>
       -- the definition the theorems are about, on the resolved oracles (indexed by the pairs still to come)
       some (Map.extend c m items hint (fun _ n => orcs.getD (items.length - n) {}))
+  -- a candidate is accepted when everything structural agrees AND the number of allocations does: a growth into a
+  -- table of the same size (tombstone-saturated tables) can end in the same counters as landing on the tombstones
   let good (r : Except Fault (Map × Out)) : Bool :=
     match r, glObs with
-    | .ok (m', _), some g => m'.main.gl == g && (match mbObs with | some b => m'.main.buckets == b | none => true)
+    | .ok (m', out), some g =>
+      m'.main.gl == g && (match mbObs with | some b => m'.main.buckets == b | none => true) &&
+      (obsFields m' out).all (fun (k, v) =>
+        if k == "mi" || k == "old" || k == "da" || k == "len" then
+          (match field? obs k with | some iv => iv == v | none => true)
+        else true)
     | .ok _, none => true
     | .error _, _ => false
   let first := (run 0).getD (Map.extend c m items hint (fun m' _ => { perm := permFor m' finalOld }))
@@ -341,7 +357,7 @@ def replayLine (s : DState) (op : String) (mid : Nat) (args : List String) (orc 
       | none => .bad s!"steps {steps}"
       | some st =>
         fin (resolveBoth (fun e h => Map.entryChain c (raw == "1") lh m k kid st { o with empt := e, hits := h })
-              glObs ((field? obs "mb").bind (·.toNat?)) (chainCands (c.R + 2) 0 st))
+              glObs ((field? obs "mb").bind (·.toNat?)) (chainCands (c.R + 2) 0 st) obs)
   | "extend", [items, hint] => nat hint fun hint => needMap fun m =>
       let pe (x : String) : Option Entry :=
         match x.splitOn ":" with
@@ -351,7 +367,7 @@ def replayLine (s : DState) (op : String) (mid : Nat) (args : List String) (orc 
       match (if items == "-" then some [] else (items.splitOn ",").mapM pe) with
       | none => .bad "extend items"
       | some es =>
-        fin (resolveExtend c m es hint (fieldList orc "oldorder") glObs ((field? obs "mb").bind (·.toNat?)))
+        fin (resolveExtend c m es hint (fieldList orc "oldorder") glObs ((field? obs "mb").bind (·.toNat?)) obs)
   | "finsert", [k, kid, v, vid, fuse] =>
     nat k fun k => nat kid fun kid => nat v fun v => nat vid fun vid => nat fuse fun fuse => needMap fun m =>
       finF (resolveHitsF (fun h => Map.insertFused c m ⟨k, kid, v, vid⟩ fuse { o with hits := h }) glObs (c.R + 2))
